@@ -81,6 +81,9 @@ func newStartEvent(wr *wiring, element *schema.StartEvent, idGenerator id.IGener
 
 func (evt *startEvent) run(ctx context.Context, sender tracing.ISenderHandle) {
 	defer sender.Done()
+	// nobody drains the inbox any more: events are dropped instead of blocking
+	// their sender
+	defer evt.running.Store(false)
 
 	for {
 		select {
@@ -143,7 +146,9 @@ func (evt *startEvent) NextAction(ctx context.Context, flow Flow) chan IAction {
 		go evt.run(ctx, sender)
 	})
 
-	response := make(chan IAction)
+	// buffered: the node sends one action per request and must not block on a token
+	// whose flow is gone (cancelled)
+	response := make(chan IAction, 1)
 	evt.mch <- nextActionMessage{response: response, flow: flow}
 	return response
 }
